@@ -37,10 +37,75 @@ func (e *callNilEngine) generate(r *rng, n int, tier string, emit func(string)) 
 			emit(s + " " + a)
 		}
 	}
+	for _, c := range []string{"ctx", "noctx"} {
+		for k := 0; k <= 70; k++ {
+			emit(fmt.Sprintf("count %s %d", c, k))
+		}
+		for _, k := range []int{127, 128, 129, 255, 256, 257, 511, 512, 513, 999, 1000} { // (the binder's "unlimited" is 1000)
+			emit(fmt.Sprintf("count %s %d", c, k))
+		}
+	}
+	for _, n := range []int{10, 1000, 4095, 4096, 4097, 5000, 65535, 65536, 65537, 200000} {
+		emit(fmt.Sprintf("bigpanic %d", n))
+	}
+}
+
+// count <ctx|noctx> <k>: a variadic function called with exactly k arguments is entered with exactly those k arguments
+// (every k: around 32, 64, 128, 256 … where a pooled or fixed-size buffer would end).
+// bigpanic <n>: a bound function panics with an error whose text is n bytes long: the caller's error still wraps THAT error.
+func (e *callNilEngine) runExtra(f []string) string {
+	ns := env.NewEnv()
+	switch f[0] {
+	case "count":
+		var k int
+		fmt.Sscanf(f[2], "%d", &k)
+		entered, got := 0, -1
+		if f[1] == "ctx" {
+			call.CallOverrideFN(ns, "probe", func(_ context.Context, xs ...MalType) (MalType, error) { entered++; got = len(xs); return len(xs), nil })
+		} else {
+			call.CallOverrideFN(ns, "probe", func(xs ...MalType) (MalType, error) { entered++; got = len(xs); return len(xs), nil })
+		}
+		form := []MalType{Symbol{Val: "probe"}}
+		for i := 0; i < k; i++ {
+			form = append(form, i)
+		}
+		res := safeRunInline(func() string {
+			v, err := lisp.EVAL(context.Background(), List{Val: form}, ns)
+			if err != nil {
+				return "err " + oneLine(err.Error())
+			}
+			return "ok " + render(v)
+		})
+		if entered != 1 || got != k || res != "ok "+render(k) {
+			return fmt.Sprintf("entered=%d with=%d %s\t!a variadic function (bounds 0 … unlimited) called with %d arguments must be entered once with exactly those arguments", entered, got, res[:min(len(res), 120)], k)
+		}
+		return "ok"
+	case "bigpanic":
+		var n int
+		fmt.Sscanf(f[1], "%d", &n)
+		orig := errors.New(strings.Repeat("x", n))
+		call.CallOverrideFN(ns, "probe", func() (MalType, error) { panic(orig) })
+		var cerr error
+		res := safeRunInline(func() string {
+			_, cerr = lisp.EVAL(context.Background(), List{Val: []MalType{Symbol{Val: "probe"}}}, ns)
+			return ""
+		})
+		if res != "" {
+			return res + "\t!a Go panic escaped from a call of a bound function"
+		}
+		if cerr == nil || !errors.Is(cerr, orig) {
+			return fmt.Sprintf("chain-lost\t!a bound function panicked with an error value (%d bytes of text): the caller's error must still wrap the original (errors.Is)", n)
+		}
+		return "ok"
+	}
+	return "bad-case"
 }
 
 func (e *callNilEngine) run(payload string) string {
 	f := strings.Fields(payload)
+	if len(f) >= 2 && (f[0] == "count" || f[0] == "bigpanic") {
+		return e.runExtra(f)
+	}
 	if len(f) != 2 {
 		return "bad-case"
 	}
